@@ -92,7 +92,7 @@ for k in ids:
         note = short(oc.replace('\n', ' '), 330)
     out.append(f"| `{k}` | {needs} | {', '.join(hit) or '-'} | {', '.join(miss) or '-'} | {note} |")
 out.append("")
-out.append(f"{n_seed_caught} of {n_seed} seeded changes are reported by at least one check, {n_seed_own} of them by the check of the very property they were written to break (final machinery, quick tier). The one that only neighbouring checks report is `C09f` (C05 and C03 report it; no named native amount differs from the attached funds, so C09's statement is arguably intact). Sixteen changes were first missed, or not detected for an infrastructure reason, and each miss was answered by widening a generator or correcting an oracle - never by special-casing the change:\n")
+out.append(f"{n_seed_caught} of {n_seed} seeded changes are reported by at least one check, {n_seed_own} of them by the check of the very property they were written to break (final machinery, quick tier). Seventeen changes were first missed, or not detected for an infrastructure reason, and each miss was answered by widening a generator or correcting an oracle - never by special-casing the change:\n")
 out.append("""* `C01` (swap refunds surplus coins it had priced on): the swap generators never attached a coin of the pair's *other* native denom of reserve-like size -> `extra_ask_16` class in every swap profile.
 * `C14` (router `Receive` re-enters `execute` with the envelope's sender): the caller matrix only sent internal messages directly -> every pair/router message is also smuggled through the public cw20 `Receive` entry with a spoofed envelope sender.
 * `C07b` (cw20-entered route without `to` pays the token contract): the C07 frame wrongly allowed the addressed token contract's own balances to change -> removed.
@@ -109,6 +109,7 @@ out.append("""* `C01` (swap refunds surplus coins it had priced on): the swap ge
 * `C15f` (the 128-bit to 256-bit decimal conversion wraps the whole part modulo 2^64): tolerances, spread limits and belief prices never exceeded about 10^3 -> the guard generators of C10 and C15 span the full 128-bit decimal and include whole parts that are multiples of 2^64.
 * `C19f` (MigratePair re-keys and thereby deletes the registry entry of a registered pair): no factory-world history migrated a pair -> MigratePair is an operation kind of C16 and part of C19's pre-listing administration.
 * `C01f` (asset equality ignores the asset kind): reported by C02 and C03 at once but not by C01, whose swap profile drew the needed shape - a direct swap naming and attaching the native denom spelled like a cw20 asset of the pair - too rarely -> explicit kind-flipped naming shapes for swaps and provisions.
+* `C09f` (a provision listing one asset twice gets the second amount credited as the other, native, deposit): no *named* native amount differs from the attached funds, so C09's comparison held, while the statement's consequence - the pool never credits native value that was not attached - is broken -> C09 now bounds the LP minted by any successful provision into a live pool by what the attached coin of each native side justifies (m * r_i <= attached_i * S).
 * Three round-6 changes (`C01f`, `C02f`, `C03f`) independently made asset equality ignore the asset kind, and `C04f` relied on a holder burning LP directly at the token contract - shapes that were only in the generators because earlier rounds had put them there (denoms spelled like token addresses after `C17c`/`C12c`; the direct LP burn was added minutes before `C04f` arrived).
 * own mutants of C13 / C14, see D.1.
 
